@@ -42,7 +42,9 @@ def legal_iso(name, cfg, is_dir):
     if not ok:
         return False
     if cfg.get('rr'):
-        return len(b) <= 221       # the system use area can be continued, the identifier cannot
+        # the record must also hold the 28-byte CE entry; everything else can be continued
+        n = len(b)
+        return 33 + n + (1 if n % 2 == 0 else 0) + (14 if cfg.get('xa') else 0) + 28 <= 254
     return record_fits(b, cfg, is_dir)
 
 
@@ -173,6 +175,10 @@ def boundary_cases():
         for depth in (6, 7, 8, 9):
             out.append((cfg, 'iso', 'DEEP', True, depth - 1))
             out.append((cfg, 'iso', 'DEEP.;1', False, depth - 1))
+    for rrcfg in (ops.mk(3, rr='1.09'), ops.mk(3, rr='1.12', xa=True)):
+        for nl in range(170, 226, 1):
+            out.append((rrcfg, 'iso', 'R' * nl, True, 0))
+            out.append((rrcfg, 'iso', 'R' * (nl - 3) + '.;1', False, 0))
     for nl in (200, 221, 222, 255):
         out.append((CFG_RR, 'iso', 'R' * 8, False, 0))
         out.append((CFG_XA, 'iso', 'X' * nl, True, 0))
@@ -303,11 +309,25 @@ def tasks(tier):
         A = dup_alphabet(cfg)
         for i in range(len(A)):
             out.append({'kind': 'dup', 'cfg': cfg, 'first': i, 'depth': b['dup_depth']})
+    for cfg in (ops.mk(1, rr='1.09'), ops.mk(3, joliet=3, rr='1.12', udf=True)):
+        out.append({'kind': 'reloc', 'cfg': cfg})
     return out
 
 
 def run_task(task):
     res = Result()
+    if task['kind'] == 'reloc':
+        # Rock Ridge relocation gathers directories from different parents in one directory: same-name collisions
+        chain = dict(ops.chains_for(task['cfg'], 'quick'))['reloc-collide']
+        for i in range(1, len(chain) + 1):
+            seq = chain[:i]
+            vs, upto, tag = run_dup(task['cfg'], seq, res)
+            res.count('evaluations')
+            for v in vs:
+                res.violation(v['clause'], v['cls'], v['msg'], {'kind': 'dup', 'cfg': task['cfg'], 'ops': seq, 'size': len(seq)})
+            if vs or tag != 'ok':
+                break
+        return res
 
     def rec(vs, case):
         for v in vs:
